@@ -271,6 +271,78 @@ pub fn run(mut run: Run) -> i32 {
             }
         });
     }
+    // the other geometry types on the lattice: every Line, every LineString with up to 4 coordinates (repetition allowed), every Triangle (all 729 corner
+    // triples), two-member MultiLineStrings and three-member GeometryCollections; rules as documented next to each error type
+    {
+        use geo::algorithm::validation::{InvalidGeometryCollection, InvalidLine, InvalidLineString, InvalidMultiLineString, InvalidTriangle};
+        let g3 = grid(3);
+        let cf = |p: IP| Coord { x: p.0 as f64, y: p.1 as f64 };
+        let ls_valid = |v: &[IP]| v.is_empty() || v.iter().any(|p| *p != v[0]);
+        let g3a = g3.clone();
+        run.stage("other-types-lines", 81, move |idx, acc| {
+            let (a, b) = (g3a[idx / 9], g3a[idx % 9]);
+            let l = Line::new(cf(a), cf(b));
+            acc.evals += 2;
+            acc.class(format!("line valid{}", a != b));
+            let (v, e) = (l.is_valid(), l.validation_errors());
+            let ev = Geometry::Line(l).is_valid();
+            if v != (a != b) || ev != v || e.is_empty() != v || e.iter().any(|x| !matches!(x, InvalidLine::IdenticalCoords)) {
+                acc.viol("Line validity wrong (valid iff the end points differ)".into(), idx, || json!({"line": format!("{:?}", l), "is_valid": v, "enum_is_valid": ev, "errors": format!("{:?}", e)}));
+            }
+        });
+        for k in 0..=4usize {
+            let g3b = g3.clone();
+            run.stage(&format!("other-types-linestring-len{}", k), 9usize.pow(k as u32), move |idx, acc| {
+                let v: Vec<IP> = nth_sequence(9, k, idx).iter().map(|&i| g3b[i]).collect();
+                let l = LineString::new(v.iter().map(|&p| cf(p)).collect());
+                let want = ls_valid(&v);
+                acc.evals += 3;
+                acc.class(format!("linestring len{} valid{}", k, want));
+                let (got, e) = (l.is_valid(), l.validation_errors());
+                let ev = Geometry::LineString(l.clone()).is_valid();
+                if got != want || ev != want || e.is_empty() != got || e.iter().any(|x| !matches!(x, InvalidLineString::TooFewPoints)) {
+                    acc.viol("LineString validity wrong (valid iff empty or at least two distinct coordinates)".into(), idx, || json!({"linestring": format!("{:?}", l), "expected": want, "is_valid": got, "enum_is_valid": ev, "errors": format!("{:?}", e)}));
+                }
+                // as second member of a MultiLineString and as last member of a GeometryCollection: the error names that member
+                let mls = MultiLineString(vec![LineString::new(vec![cf((0, 0)), cf((1, 2))]), l.clone()]);
+                let (mv, me) = (mls.is_valid(), mls.validation_errors());
+                if mv != want || me.is_empty() != mv || me.iter().any(|x| !matches!(x, InvalidMultiLineString::InvalidLineString(i, _) if i.0 == 1)) {
+                    acc.viol("MultiLineString validity wrong / error names the wrong member".into(), idx, || json!({"multilinestring": format!("{:?}", mls), "expected": want, "is_valid": mv, "errors": format!("{:?}", me)}));
+                }
+                let gc = GeometryCollection(vec![Geometry::Point(Point(cf((1, 1)))), Geometry::MultiPoint(MultiPoint(vec![Point(cf((0, 0))), Point(cf((0, 0)))])), Geometry::LineString(l.clone())]);
+                let (gv, ge) = (gc.is_valid(), gc.validation_errors());
+                if gv != want || ge.is_empty() != gv || ge.iter().any(|x| !matches!(x, InvalidGeometryCollection::InvalidGeometry(i, _) if i.0 == 2)) {
+                    acc.viol("GeometryCollection validity wrong / error names the wrong member".into(), idx, || json!({"collection": format!("{:?}", gc), "expected": want, "is_valid": gv, "errors": format!("{:?}", ge)}));
+                }
+            });
+        }
+        let g3c = g3.clone();
+        run.stage("other-types-triangles", 729, move |idx, acc| {
+            let (a, b, c) = (g3c[idx / 81], g3c[(idx / 9) % 9], g3c[idx % 9]);
+            let t = Triangle(cf(a), cf(b), cf(c));
+            let distinct = a != b && a != c && b != c;
+            let want = distinct && area2(&[a, b, c]) != 0;
+            acc.evals += 2;
+            acc.class(format!("triangle distinct{} valid{}", distinct, want));
+            let (got, e) = (t.is_valid(), t.validation_errors());
+            let ev = Geometry::Triangle(t).is_valid();
+            let pts = [a, b, c];
+            let errs_true = e.iter().all(|x| match x {
+                InvalidTriangle::IdenticalCoords(i, j) => i.0 < 3 && j.0 < 3 && i.0 != j.0 && pts[i.0] == pts[j.0],
+                InvalidTriangle::CollinearCoords => distinct && area2(&[a, b, c]) == 0,
+                InvalidTriangle::NonFiniteCoord(_) => false,
+            });
+            if got != want || ev != want || e.is_empty() != got || !errs_true {
+                acc.viol("Triangle validity wrong (valid iff three distinct non-collinear corners) or an untrue error".into(), idx, || json!({"triangle": format!("{:?}", t), "expected": want, "is_valid": got, "enum_is_valid": ev, "errors": format!("{:?}", e)}));
+            }
+            // Rect: always valid for finite corners, whatever the corner order
+            let r = Rect::new(cf(a), cf(b));
+            acc.evals += 1;
+            if !r.is_valid() || !Geometry::Rect(r).is_valid() || !r.validation_errors().is_empty() {
+                acc.viol("Rect with finite corners reported invalid".into(), idx, || json!({"rect": format!("{:?}", r)}));
+            }
+        });
+    }
     // finiteness clause on every type
     let vals = [0.0, 1.0, f64::NAN, f64::INFINITY, f64::NEG_INFINITY];
     let nv = vals.len();
